@@ -310,6 +310,10 @@ def geometry(desc, node=None):
         if set(go["crossings"][0]["factors"]) & set(gi["crossings"][0]["factors"]):
             raise Unsupported("a factor cannot be crossed in both blocks")
         T = max(max(c["preamble"] + c["size"] for c in cr), _min_trials(node["constraints"]))
+        if T % inner_len != 0:
+            # a MinimumTrials given to the Nest itself that leaves an incomplete group of inner trials: the documentation does not say whether the
+            # count is rounded up to whole groups (the library rounds up to a multiple of the sustain count)
+            raise Unsupported("MinimumTrials on a Nest that is not a multiple of the inner run length (rounding is not documented)")
         cons = []
         for (c, w) in go["constraints"]:
             if c[0] in ("AtMostKInARow", "AtLeastKInARow", "ExactlyKInARow", "ExactlyK", "Pin", "Sequential"):
